@@ -39,7 +39,11 @@ void operator delete(void* p) noexcept
     if (!p)
         return;
     if (gFillEnabled)
+    {
         memset(p, static_cast<unsigned char>(~gFill), malloc_usable_size(p));
+        // without this barrier the compiler removes the store as dead (the block is freed next)
+        __asm__ __volatile__("" : : "r"(p) : "memory");
+    }
     free(p);
 }
 void operator delete[](void* p) noexcept
